@@ -39,7 +39,14 @@ func totality(p vlib.Project, res vlib.Result) *vlib.Failure {
 		return nil
 	}
 	if res.ToJSONErr != "" {
-		return vlib.Failf("tojson-error", "accepted project does not serialise: %s", res.ToJSONErr)
+		tail := res.ToJSONErr
+		if i := strings.LastIndex(tail, ": "); i >= 0 {
+			tail = tail[i+2:]
+		}
+		if strings.Contains(tail, "exceeded max depth") {
+			tail = "exceeded max depth"
+		}
+		return vlib.Failf("tojson-error: "+normDigits(tail), "accepted project does not serialise: %s", res.ToJSONErr)
 	}
 	return nil
 }
